@@ -19,6 +19,10 @@ CONSTANTS AlreadyChecked,   \* TRUE : should_sign refuses metadata the node has 
                             \*        shadows the node's own row, "already attested" is never seen  [deviation]
           CheckSubject,     \* FALSE: should_sign without the subject-key comparison   (negative control)
           CheckPermission,  \* FALSE: on_request_missing ignores the permission index  (negative control)
+          CommitBeforeSend, \* TRUE : the own attestation is written to the Attestations table before the AttestPayload
+                            \*        leaves the node; a failed write aborts the handler, nothing is sent    [the code]
+                            \* FALSE: "answer first, commit later": the packet is out when the write fails, no row
+                            \*        remembers it and a replayed disclosure is attested again      (negative control)
           Window,           \* 300 s
           RespCap,          \* tokens per MissingResponsePayload (1296 // 128 = 10)
           FitAll            \* longest chain that is certainly disclosed in full by _fit_disclosure
@@ -35,12 +39,18 @@ VARIABLES clock,     \* seconds
           chain,     \* length of the own token_chain
           perm,      \* permissions : peer -> highest index opened
           handed,    \* history : peer -> positions of own tokens ever sent to it
-          out        \* messages emitted by the last step
-vars == <<clock, known, regHist, els, unch, mdTab, attTab, signed, signLog, chain, perm, handed, out>>
+          out,       \* messages emitted by the last step
+          fault      \* environment: the table whose next write (INSERT) fails with a storage error - sqlite3.OperationalError,
+                     \* "database is locked" / "disk full" - TabAtt, TabMd or NoFault.  One shot: the first INSERT into
+                     \* that table after arming raises, whatever the row; the error leaves the handler / the call.
+vars == <<clock, known, regHist, els, unch, mdTab, attTab, signed, signLog, chain, perm, handed, out, fault>>
 attestorVars == <<known, regHist, els, unch, mdTab, signed, signLog>>
 ownerVars    == <<chain, perm, handed>>
 
 NoReg == [name |-> 0, time |-> 0, subj |-> 0, meta |-> 0]
+NoFault == 0
+TabAtt  == 1     \* Attestations
+TabMd   == 2     \* Metadata
 NoOut == [to |-> 0, att |-> {}, miss |-> 0, missKnown |-> 0, respSent |-> FALSE, discSent |-> FALSE, toks |-> {}]
 
 Init == /\ clock = 0
@@ -48,18 +58,22 @@ Init == /\ clock = 0
         /\ els = [p \in Peers |-> {}] /\ unch = [p \in Peers |-> {}]
         /\ mdTab = {} /\ attTab = {} /\ signed = {} /\ signLog = {}
         /\ chain = 0 /\ perm = [p \in Peers |-> 0] /\ handed = [p \in Peers |-> {}]
-        /\ out = NoOut
+        /\ out = NoOut /\ fault = NoFault
 
 (* ------------------------------------------ user / clock ---------------------------------------- *)
 Tick(d) == /\ d > 0 /\ clock' = clock + d /\ out' = NoOut
-           /\ UNCHANGED <<attestorVars, attTab, ownerVars>>
+           /\ UNCHANGED <<attestorVars, attTab, ownerVars, fault>>
+
+(* the environment arms a storage fault on table t (see `fault`) *)
+Fault(t) == /\ t \in {TabAtt, TabMd} /\ fault' = t /\ out' = NoOut
+            /\ UNCHANGED <<clock, attestorVars, attTab, ownerVars>>
 
 (* add_known_hash: the table is keyed by the hash alone, the latest registration replaces the entry  *)
 AddKnownHash(h, name, subj, meta) ==
   /\ known' = [known EXCEPT ![h] = [name |-> name, time |-> clock, subj |-> subj, meta |-> meta]]
   /\ regHist' = regHist \cup {[h |-> h, name |-> name, time |-> clock, subj |-> subj, meta |-> meta]}
   /\ out' = NoOut
-  /\ UNCHANGED <<clock, els, unch, mdTab, attTab, signed, signLog, ownerVars>>
+  /\ UNCHANGED <<clock, els, unch, mdTab, attTab, signed, signLog, ownerVars, fault>>
 
 (* ------------------------------- IdentityManager.substantiate ------------------------------------ *)
 (* TokenTree.gather_token for the tree of peer p (C16: the chain reaction wakes every waiting child)  *)
@@ -120,10 +134,15 @@ ChainOK(t, e, p) == /\ t \in Toks /\ t \in e /\ W.tokOwner[t] = p
                     /\ (W.tokPar[t] = 0 \/ ChainOK(W.tokPar[t], e, p))
 
 (* ---------------------- _received_disclosure_for_attest(peer, disclosure) ------------------------- *)
+(* Order of effects in the handler (what a storage fault cuts short):                                   *)
+(*   1 tokens into the in-memory tree   2 INSERT Metadata (each one that verifies, in message order)    *)
+(*   3 INSERT Attestations (each piggy-backed one that verifies)   4 per credential to sign:            *)
+(*   INSERT Attestations (own row), then AttestPayload   5 RequestMissingPayload                        *)
+(* A failed INSERT raises out of the handler: what was written before stays, nothing after it happens.  *)
 Process(p, mds, toks, atts) ==
   IF ~\E h \in Hashes : known[h].subj = p
   THEN /\ out' = NoOut                                               \* unsolicited: dropped before substantiate
-       /\ UNCHANGED <<clock, attestorVars, attTab, ownerVars>>
+       /\ UNCHANGED <<clock, attestorVars, attTab, ownerVars, fault>>
   ELSE LET g        == FoldTok([e |-> els[p], u |-> unch[p], ok |-> TRUE], p, toks)
            mt       == FoldMd(mdTab, p, mds)
            ar       == FoldAtt([tab |-> attTab, ok |-> TRUE], p, atts)
@@ -134,33 +153,57 @@ Process(p, mds, toks, atts) ==
            tosign   == IF correct /\ required \cap have # {}
                        THEN {m \in creds : ShouldSign(p, m, g.e, ar.tab)} ELSE {}
            own(m)   == [subj |-> p, auth |-> Self, signer |-> Self, md |-> m]
+           entry(m) == [md |-> m, to |-> p, consent |-> AbsConsent(p, m),
+                        chain |-> ChainOK(W.mdTok[m], g.e, p), fresh |-> m \notin signed]
+           mdHit    == fault = TabMd  /\ \E i \in 1..Len(mds)  : W.mdSigner[mds[i]] = p
+           attHit   == fault = TabAtt /\ \E i \in 1..Len(atts) : W.attSigner[atts[i][1]] = atts[i][2]
+           signHit  == fault = TabAtt /\ tosign # {}
+           Abort(md, at) == /\ mdTab' = md /\ attTab' = at /\ out' = NoOut /\ fault' = NoFault
+                            /\ UNCHANGED <<signed, signLog>>
        IN /\ els' = [els EXCEPT ![p] = g.e] /\ unch' = [unch EXCEPT ![p] = g.u]
-          /\ mdTab' = mt
-          /\ attTab' = ar.tab \cup {own(m) : m \in {n \in tosign : ~Conflicts(ar.tab, own(n))}}
-          /\ signed' = signed \cup tosign
-          /\ signLog' = signLog \cup {[md |-> m, to |-> p, consent |-> AbsConsent(p, m),
-                                       chain |-> ChainOK(W.mdTok[m], g.e, p), fresh |-> m \notin signed] : m \in tosign}
-          /\ out' = IF tosign = {} /\ required \subseteq have THEN NoOut
-                     ELSE [NoOut EXCEPT !.to = p, !.att = tosign, !.miss = Cardinality(required \ have),
-                                        !.missKnown = IF required \subseteq have THEN 0 ELSE Cardinality(g.e)]
           /\ UNCHANGED <<clock, known, regHist, ownerVars>>
+          /\ IF mdHit THEN Abort(mdTab, attTab)            \* rows before the first verifying metadata: none
+             ELSE IF attHit THEN Abort(mt, attTab)         \* rows before the first verifying attestation: none
+             ELSE IF signHit
+             THEN IF CommitBeforeSend
+                  THEN Abort(mt, ar.tab)                   \* the write of the own row fails first: nothing leaves
+                  ELSE \E m \in tosign :                   \* [deviation] the packet left, then the write failed
+                         /\ mdTab' = mt /\ attTab' = ar.tab /\ fault' = NoFault
+                         /\ signed' = signed \cup {m} /\ signLog' = signLog \cup {entry(m)}
+                         /\ out' = [NoOut EXCEPT !.to = p, !.att = {m}]
+             ELSE /\ mdTab' = mt
+                  /\ attTab' = ar.tab \cup {own(m) : m \in {n \in tosign : ~Conflicts(ar.tab, own(n))}}
+                  /\ signed' = signed \cup tosign
+                  /\ signLog' = signLog \cup {entry(m) : m \in tosign}
+                  /\ out' = IF tosign = {} /\ required \subseteq have THEN NoOut
+                             ELSE [NoOut EXCEPT !.to = p, !.att = tosign, !.miss = Cardinality(required \ have),
+                                                !.missKnown = IF required \subseteq have THEN 0 ELSE Cardinality(g.e)]
+                  /\ UNCHANGED fault
 
 RecvDisclose(p, mds, toks, atts) == Process(p, mds, toks, atts)        \* on_disclosure
 RecvMissingResponse(p, toks)     == Process(p, <<>>, toks, <<>>)        \* on_missing_response
 
 (* ----------------------------------------- owner role -------------------------------------------- *)
-SelfAdvertise == /\ chain' = chain + 1 /\ out' = NoOut
-                 /\ UNCHANGED <<clock, attestorVars, attTab, perm, handed>>
+(* self_advertise -> create_credential writes the new token and its metadata before the chain views  *)
+(* (token_chain, permissions) change: a failed Metadata write raises out of the call, the chain does  *)
+(* not grow, nothing is opened to the peer and nothing is sent.                                       *)
+OwnerAbort == /\ out' = NoOut /\ fault' = NoFault
+              /\ UNCHANGED <<clock, attestorVars, attTab, ownerVars>>
+
+SelfAdvertise == IF fault = TabMd THEN OwnerAbort
+                 ELSE /\ chain' = chain + 1 /\ out' = NoOut
+                      /\ UNCHANGED <<clock, attestorVars, attTab, perm, handed, fault>>
 
 (* request_attestation_advertisement(peer, ...): new credential, permission = whole chain, disclosure  *)
 (* with the tokens S (the whole chain when it fits the packet)                                          *)
 RequestAdvert(p, S) ==
-  /\ S \subseteq 1..(chain + 1) /\ (chain + 1 <= FitAll => S = 1..(chain + 1))
-  /\ chain' = chain + 1
-  /\ perm' = [perm EXCEPT ![p] = chain + 1]
-  /\ handed' = [handed EXCEPT ![p] = @ \cup S]
-  /\ out' = [NoOut EXCEPT !.to = p, !.discSent = TRUE, !.toks = S]
-  /\ UNCHANGED <<clock, attestorVars, attTab>>
+  IF fault = TabMd THEN OwnerAbort
+  ELSE /\ S \subseteq 1..(chain + 1) /\ (chain + 1 <= FitAll => S = 1..(chain + 1))
+       /\ chain' = chain + 1
+       /\ perm' = [perm EXCEPT ![p] = chain + 1]
+       /\ handed' = [handed EXCEPT ![p] = @ \cup S]
+       /\ out' = [NoOut EXCEPT !.to = p, !.discSent = TRUE, !.toks = S]
+       /\ UNCHANGED <<clock, attestorVars, attTab, fault>>
 
 (* on_request_missing(peer, known = k): one MissingResponsePayload, tokens k+1 .. permission            *)
 RecvRequestMissing(p, k) ==
@@ -168,11 +211,15 @@ RecvRequestMissing(p, k) ==
       resp == {i \in 1..top : i > k /\ i <= k + RespCap}
   IN /\ handed' = [handed EXCEPT ![p] = @ \cup resp]
      /\ out' = [NoOut EXCEPT !.to = p, !.respSent = TRUE, !.toks = resp]
-     /\ UNCHANGED <<clock, attestorVars, attTab, chain, perm>>
+     /\ UNCHANGED <<clock, attestorVars, attTab, chain, perm, fault>>
 
 (* on_attest(peer, attestation x): stored in the own pseudonym only if it verifies under the sender's key *)
+(* (a storage fault on the Attestations table: the write raises, no row)                                 *)
 RecvAttest(p, x) ==
-  /\ attTab' = IF W.attSigner[x] = p THEN Insert(attTab, Row(Self, p, x)) ELSE attTab
+  /\ IF W.attSigner[x] = p
+     THEN IF fault = TabAtt THEN attTab' = attTab /\ fault' = NoFault
+          ELSE attTab' = Insert(attTab, Row(Self, p, x)) /\ UNCHANGED fault
+     ELSE UNCHANGED <<attTab, fault>>
   /\ out' = NoOut
   /\ UNCHANGED <<clock, attestorVars, ownerVars>>
 
@@ -180,10 +227,14 @@ RecvAttest(p, x) ==
 TypeOK == /\ \A p \in Peers : els[p] \subseteq Toks /\ unch[p] \subseteq Toks /\ els[p] \cap unch[p] = {}
           /\ mdTab \subseteq Mds /\ signed \subseteq Mds
           /\ \A p \in Peers : perm[p] <= chain
+          /\ fault \in {NoFault, TabAtt, TabMd}
 
 (* A node signs only what its user registered (hash, subject key, name, fixed metadata) less than     *)
 (* five minutes earlier, over a chain that verifies, and not twice.                                    *)
 SignsOnlyConsented == \A e \in signLog : e.consent /\ e.chain /\ e.fresh
+(* an attestation leaves the node only when it is on record - the row is what "not attested already" *)
+(* is decided from the next time, also when a write failed in between                                   *)
+SentOnlyRecorded == \A m \in out.att : [subj |-> out.to, auth |-> Self, signer |-> Self, md |-> m] \in attTab
 (* every stored attestation verifies under the authority it is stored for (on_attest: the sender)       *)
 StoresOnlyValidlySigned == \A r \in attTab : r.signer = r.auth
 (* own tokens go only to peers the user opened them to and only up to that position                     *)
